@@ -152,6 +152,9 @@ def run(ctx: Ctx) -> None:
         stops_in_read = grd.must_pass(grd.entry, [grd.exit], has_call("self.idle_task.stop")) is None
         ctx.check("C07.R5", w, "read loop ended -> idle_task.stop() before leaving the task group", wit is None or stops_in_read,
                   "after client EOF the task group waits for the idle timer task: the handler and the socket are held for keep_alive_timeout although the peer is gone", run_)
+        closed_call = has_stmt(lambda n: isinstance(n, ast.Call) and call_name(n) == "self.protocol.handle" and n.args and "Closed()" in norm(n.args[0]))
+        wit = grd.must_pass(grd.entry, [grd.exit], closed_call)
+        ctx.check("C07.R3", f"{mod}:TCPServer._read_data", "every normal exit of the read loop tells the protocol Closed", wit is None, "the read loop can end without protocol.handle(Closed()): streams are never told the peer is gone: " + explain(grd, wit), rdf)
         # R6
         it = repo.func(mod, "TCPServer._idle_timeout")
         wi = f"{mod}:TCPServer._idle_timeout"
